@@ -75,6 +75,12 @@ func c07System() *explore.System {
 		txOp("SubmitProposal(CommunityPoolSpend->burn,700umed+9uoff)", s(A), prop),
 		txOp("Vote(A,proposal1,yes)", s(A), govv1.NewMsgVote(A.Addr, 1, govv1.OptionYes, "")),
 	)
+	// "uvch": a minor denomination of which A holds everything that exists; sending ALL of it to the burn address makes the
+	// burn bring that denomination's supply to zero (bank then drops the supply record) - it must be burned like any other
+	ops = append(ops,
+		txOp("Send(A->burn,100uvch)", s(A), banktypes.NewMsgSend(A.Addr, burn, coins("100uvch"))),
+		txOp("Send(A->burn,all-that-exists-of-uvch)", s(A), banktypes.NewMsgSend(A.Addr, burn, coins("600uvch"))),
+	)
 	ops = append(ops, ctlOps("NB")...)
 	sys := &explore.System{
 		ID:     "C07",
@@ -89,6 +95,12 @@ func c07System() *explore.System {
 					var bg banktypes.GenesisState
 					cdc.MustUnmarshalJSON(gs["bank"], &bg)
 					bg.SendEnabled = append(bg.SendEnabled, banktypes.SendEnabled{Denom: "uoff", Enabled: false})
+					for i := range bg.Balances {
+						if bg.Balances[i].Address == A.Bech {
+							bg.Balances[i].Coins = bg.Balances[i].Coins.Add(sdk.NewInt64Coin("uvch", 600))
+							bg.Supply = bg.Supply.Add(sdk.NewInt64Coin("uvch", 600))
+						}
+					}
 					gs["bank"] = cdc.MustMarshalJSON(&bg)
 					var g govv1.GenesisState
 					cdc.MustUnmarshalJSON(gs["gov"], &g)
